@@ -60,10 +60,17 @@ def main():
                     for emb in embs:
                         plan.append(dict(dump=fn, fam=fam, impl=impl, is_set=is_set, emb=emb, leaf=lf, internal=it,
                                          bounds=list(range(0, nk + 2)), states=sel, shift=0))
+    # stand-alone Buckets and Sets (their own range code: Bucket_rangeSearch / _BucketBase._range) with the same contents
+    lplan = []
+    for j in plan:
+        if (j['fam'], j['impl'], j['is_set'], j['emb']) not in {(x['fam'], x['impl'], x['is_set'], x['emb']) for x in lplan}:
+            lplan.append(dict(j, kind='leaf', states=j['states'][:(60 if quick else 600)]))
+    plan += lplan
     results = jobs.run_jobs('harness.workers.range_worker', plan)
     allrecs, owners = {}, {}
     for job, res, err in results:
-        ident = dict(fam=job['fam'], impl=job['impl'], is_set=job['is_set'], emb=job['emb'], sizes=[job['leaf'], job['internal']])
+        ident = dict(fam=job['fam'], impl=job['impl'], is_set=job['is_set'], emb=job['emb'], sizes=[job['leaf'], job['internal']],
+                     container=job.get('kind', 'tree'))
         if err:
             ck.violation('range worker died %s: %s' % (ident, err), dict(ident, kind='crash', err=err))
             continue
@@ -74,7 +81,7 @@ def main():
             if not wellformed(r):
                 ck.violation('%s %s: %s query %s answered %s on contents %s' % (
                     ident['fam'], ident['impl'], r['kind'], r.get('q', r.get('b')), r.get('got', r.get('idx')), r['cs']),
-                    dict(ident, kind='malformed-result', rec=r))
+                    dict(ident, kind='malformed-result', rec=r, rkind=r['kind'], got=str(r.get('got')), empty=(r['cs'] == []), bound=r.get('b')))
                 continue
             if k not in allrecs:
                 allrecs[k] = r
